@@ -28,7 +28,7 @@ FORMATS = [None, NS, "c", "bc", "http://ns.example/v1", "http://ns.example/v1#x"
 
 
 def examples(tier):
-    return 3200 if tier == "quick" else 30000
+    return 3200 if tier == "quick" else 60000
 
 
 @st.composite
